@@ -76,7 +76,9 @@ def reorder_case(h, L):
     pu = h.module(PU)
     cases = list(sequences(L))
     deps = cases[h.eng.choose(len(cases), "deps")]
-    marks = h.eng.choose(2 ** L, "marks")
+    # every marking of the commands for L <= 3; for L = 4 the markings with 0, 1 (each position), 2 (adjacent, split) and 4 marked
+    patterns = list(range(2 ** L)) if L <= 3 else [0b0000, 0b0001, 0b0010, 0b0100, 0b1000, 0b0110, 0b1001, 0b1111]
+    marks = patterns[h.eng.choose(len(patterns), "marks")]
     refs = [Ref_(w) for w in range(WIRES)]
     seq = [ACmd(k, [refs[w] for w in DEPSETS[d]], bool(marks >> k & 1)) for k, d in enumerate(deps)]
     dependent = [(a, b) for i, a in enumerate(seq) for b in seq[i + 1:] if {r.ind for r in a.deps} & {r.ind for r in b.deps}]
